@@ -53,7 +53,7 @@ CHECKS = [
         "field, every admissible unit field and a generic field (routes are affine; pairs for gradient_squared).  Schedules of "
         "the parallel kernels: per-iteration read/write sets of every prange loop are recorded (prange replaced, arrays proxied) "
         "and Bernstein's conditions checked, all permutations of the outer loop are executed for small shapes; real parallel "
-        "kernels run with 1..16 threads x chunk sizes and must be bit-identical and equal to the serial kernel.",
+        "kernels run with 1..16 threads x chunk sizes and must be bit-identical and equal to the serial kernel. Operator options (method=forward/backward, conservative=True/False) are sent through every route as well; all ordered pairs of constant BC classes on the first axis go through the sparse-matrix route.",
         "note": "numba's native thread scheduler is not put under a controlled scheduler (independence argument + enumerated thread "
         "counts instead); entries depending on ghost cells that normal-only BCs leave undefined are masked (determined by running "
         "with different ghost fillers). " + _MODES,
@@ -82,7 +82,7 @@ CHECKS = [
         "f -> sum_i V_i (L_bc f)_i is evaluated on the zero field and EVERY unit basis vector (so it vanishes for all fields) for the "
         "Laplacian with periodic/zero-flux conditions and for the divergence with vanishing normal component (Cartesian, conservative "
         "spherical), with the grid's own and with exact closed-form cell volumes.  (b) Diffusion, Cahn-Hilliard and expression-PDE "
-        "simulations on 6 grids x 6 solvers x 2 backends x 3 step sizes x 3 step counts keep the integral recorded after every step.",
+        "simulations on 6 grids x 6 solvers x 2 backends x 3 step sizes x 3 step counts keep the integral recorded after every step. The functional is also evaluated through the really compiled operator-with-BC (3-axis grids with every order of the extents); simulations include a two-species PDE with per-variable bc_ops (one absorbed, one conserved, both orders).",
         "note": "(a) is decisive by linearity; (b) uses one seeded state per configuration; diverging runs (dt=0.1) are counted, not compared. " + _MODES,
     },
     {
@@ -104,7 +104,7 @@ CHECKS = [
         "time range (whole numbers of steps and fractional) x every tracker set (none, 23 single interrupt schedules - constant, "
         "fixed lists, logarithmic, geometric, non-commensurate -, all pairs/triples of reduced pools) is compared with the "
         "tracker-free run (bit-identical for autonomous equations), with `steps` applications of the solver's own one-step map, and "
-        "checked for exact step/time accounting and an untouched initial state; compiled steppers on a reduced alphabet.",
+        "checked for exact step/time accounting and an untouched initial state; compiled steppers on a reduced alphabet. Tracker alphabets include constant interrupts with an absolute t_start (0.0, -1.0).",
         "note": "dt/t_start/interval values from fixed lattices including classic floating-point edge cases; other values are not covered. " + _MODES,
     },
     {
@@ -116,7 +116,7 @@ CHECKS = [
         "once within dt/2 - exactly for adaptive steppers -, frame counts of a MemoryStorage tracker); then a StopIteration / "
         "FinishedSimulation is injected at EVERY call of EVERY tracker (and at two trackers at once) and the run must equal the "
         "fault-free prefix (all due trackers served, none later), end at the stop time with that state, report the reason and "
-        "finalise every tracker once.",
+        "finalise every tracker once. Constant interrupts with an absolute t_start (0.0, -1.0): no call before t_start, schedule based at max(t_start of the run, t_start of the interrupt).",
         "note": "Linear test equation on 2 cells; scheduled times within 1e-9*dt of t_end are ambiguous. " + _MODES,
     },
     {
@@ -139,7 +139,7 @@ CHECKS = [
         "evolution_rate, make_pde_rhs on numpy and numba, the generic PDE built from the class's own expression text, and an "
         "independent reference assembled from field.laplace/gradient_squared, at t in {0, 1.3}, on the COMPLETE determining set for "
         "polynomial maps of degree <= 3 (all states with support <= 3 and entries in 0..3; up to 1789 states) plus generic states - "
-        "routes that agree there compute the same polynomial map.  Really compiled rates are compared on a covering subset.",
+        "routes that agree there compute the same polynomial map.  Really compiled rates are compared on a covering subset. Constants are passed with an unused one first (insertion order differs from sorted order); a vector-state part compares interpreted and compiled rates of right-hand sides built from outer/dot of two different operands.",
         "note": "Expression route compared only where the text determines the BC wiring (rule per class in the module docstring); "
         "non-polynomial user terms are compared on the same points without the determining-set argument. " + _MODES,
     },
@@ -153,7 +153,7 @@ CHECKS = [
         "function (interpreted source for all, really compiled once per shape class), single_arg, array arguments, symbolic "
         "differentiate / derivatives, tensor expressions, field construction from expressions on five grid types, aliases and "
         "explicit symbols; the oracle is Python eval of the same text over numbers that carry forward-mode partial derivatives and a "
-        "running rounding-error bound and never touches sympy.",
+        "running rounding-error bound and never touches sympy. Constants are passed with an unused one first; field construction through the cell-by-cell fallback (Piecewise, comparisons, scalar-only user functions) is compared cell by cell with the written formula.",
         "note": "Values are fixed generic and special points per arity (transcendental functions admit no finite determining set); "
         "ill-conditioned points are skipped and counted; loud refusals (uncompilable erf, opaque derivatives) are counted. Two "
         "sympy.simplify families are listed known findings. " + _MODES,
@@ -179,7 +179,7 @@ CHECKS = [
         "(default_rng(seed).standard_normal once per step): increment, interpretation drift, Milstein correction; the generator "
         "state after the run must equal exactly one draw per step, seeded runs are bitwise reproducible, zero variance is bitwise "
         "deterministic; the numba backend is replicated through its seeded RNG (interpreted and 12 really compiled steppers); "
-        "solvers that must refuse noise do refuse.",
+        "solvers that must refuse noise do refuse. Variables of multi-field PDEs are deliberately not in alphabetical order; per-field noise is also given as a dict in another order.",
         "note": "make_noise_realization, complex fields, MPI/jax/torch not covered; variances <= 1e-14 are treated as zero by the package "
         "(observation). " + _MODES,
     },
@@ -190,7 +190,7 @@ CHECKS = [
         "text": "Every grid class x parameter form x route (from_state, JSON, copy, copy.copy, deepcopy, pickle), every field class x "
         "dtype x label x route, mixed-rank collections, FieldCollection.from_data with/without ghost cells on every grid class, and "
         "the MemoryStorage field_attributes round trip; equality of class, bounds incl. inner radius, periodicity, volumes, labels, "
-        "dtype and data (bitwise).",
+        "dtype and data (bitwise). Wide dtypes (int64 beyond 2**53, longdouble) are compared exactly.",
         "note": "float32 collections through copy()/storage read-back yield float64 (documented automatic dtype): recorded as observation.",
     },
     {
@@ -204,7 +204,7 @@ CHECKS = [
         "families.  After EVERY transition, for EVERY pair of live handles np.shares_memory and a write probe (unique sentinel written "
         "through one handle, read through all others) must equal the verdict of a reference model that knows only buffers and "
         "regions; collection layout (fields in order, components row-major), data-as-view, untouched operands and ghost cells are "
-        "checked.  States are merged on the alias partition; two witnesses of every merged state are expanded and must agree.",
+        "checked.  States are merged on the alias partition; two witnesses of every merged state are expanded and must agree. Label access with several members carrying the label addresses the first one only.",
         "note": "Tiny grids (2 cells per axis); contents are deterministic; complex outer products without out are excluded (TypeError). "
         "Trusted: numpy, the reference model.",
     },
@@ -232,7 +232,7 @@ CHECKS = [
         "the sub-grid operators combined equal the whole-grid operator as linear maps (zero, every unit vector of the padded array, "
         "superposition) and end to end for 7 BC classes; transferred outer-face BCs give the same ghost cells.  The _MPIBC "
         "send/receive bookkeeping is executed for all nodes over a mailbox standing in for pde.tools.mpi and ALL interleavings of the "
-        "nodes' recorded programs are explored (ambiguous receives, deadlock, left-over messages, order dependence, equality with serial).",
+        "nodes' recorded programs are explored (ambiguous receives, deadlock, left-over messages, order dependence, equality with serial). Single axes of 8..40 (80) cells are split into every chunk count; the grid that was split must remain an ordinary whole grid (splittable again, accepts inhomogeneous conditions).",
         "note": "Real MPI and the numba_mpi backend are absent; the exchange is explored with a stand-in.  The anti-periodic wrap face "
         "under the exchange is a listed known finding; radial splits of cylinders etc. are loud refusals. " + _MODES,
     },
@@ -246,7 +246,7 @@ CHECKS = [
         "non-singular, and the solver is run on zero and EVERY unit right-hand side (non-singular) resp. on a basis of the range and on "
         "incompatible right-hand sides (singular): returned fields must satisfy the discrete equation at the solver's own acceptance "
         "level, incompatible problems must raise; the sparse matrix route is compared entry-wise with the operator; "
-        "solve_laplace_equation equals Poisson with zero rhs.",
+        "solve_laplace_equation equals Poisson with zero rhs. One BoundariesList object is re-used for further solves after its conditions were changed through public setters / linked arrays; each solve must solve the problem with the current data.",
         "note": "Singular-compatible right-hand sides may be refused (counted); tolerance 2e-5 follows the solver's own 1e-5 acceptance test. " + _MODES,
     },
     {
@@ -256,7 +256,7 @@ CHECKS = [
         "text": "Bases of all coordinate systems on point lattices (orthonormal, right-handed, equal to the normalised Jacobian and to "
         "a finite-difference Jacobian); for every curvilinear grid every unit component field e_i / e_i e_j is pushed through "
         "access by name, from_expression position, differential operators, dot/outer products and conversion to Cartesian grids "
-        "and must denote the same physical direction; affine and axial fields; commutation with divergence/gradient on refinement pairs.",
+        "and must denote the same physical direction; affine and axial fields; commutation with divergence/gradient on refinement pairs. Complex operands in dot/outer; transposed plot data mirrors positions and components.",
         "note": "D7 (cylindrical conversion to Cartesian uses (r,phi,z)) is a listed known finding pinned by an existing test. " + _MODES,
     },
     {
@@ -267,7 +267,7 @@ CHECKS = [
         "read/clear/derive/tracker-driven writes, incompatible fields) up to depth 5 (quick) / 7 (thorough) "
         "for 4 write modes x {single field, collection}; after every transition the real storage's "
         "observations, raised errors and aliasing are compared with a boring reference model; states are "
-        "merged on a canonical observation whose soundness is validated by expanding two witnesses per state.",
+        "merged on a canonical observation whose soundness is validated by expanding two witnesses per state. Derived storages (copy, apply, extract_field, extract_time_range) must stay independent of their source in both directions, also when either side is written later (look-ahead of 4/7 write sequences from every merged state up to history length 5).",
         "note": "Bounded depth and a fixed tiny field universe (2-3 cells); file/movie storages are outside the "
         "property; trusted: numpy, the reference model (40 lines).",
     },
